@@ -43,6 +43,10 @@ CommitR == \E c \in {Pick(Chains)} : Commit(c)
 UpdateGood == \E c \in {Pick(Chains)} : \E d \in {Pick(Chains \ {c})} : UpdateClient(c, d, h[d], "relayer")
 UpdateR    == \E c \in {Pick(Chains)} : \E d \in {Pick(Chains \ {c})} : \E k \in {Pick(0..MaxH)} : \E s \in {Pick(Signers)} :
                  UpdateClient(c, d, k, s)
+(* the registered relayer submits, for a height the counterparty has (often one the client already verified), a header  *)
+(* that the counterparty's validators never signed (another application hash, signed by a private validator)           *)
+UpdateForged == \E c \in {Pick(Chains)} : \E d \in {Pick(Chains \ {c})} :
+                 \E k \in {IF Pick(1..3) > 1 THEN Pick(clients[c][d].cons \cup {h[d]}) ELSE Pick(0..MaxH)} : UpdateClient(c, d, k, "forger")
 
 Pending == {p \in sent : T(p) \notin receipts[p.dst]}
 GoodRecvHeights(p) == {k \in clients[p.dst][p.src].cons : k + 1 <= Len(snaps[p.src]) /\ p \in snaps[p.src][k + 1].commits}
@@ -119,7 +123,7 @@ RetoggleR == \E c \in {Pick(Chains)} : \E d \in {Pick(Chains \ {c})} : Retoggle(
 NewClientR == \E c \in {Pick(Chains)} : \E d \in {Pick(Chains \ {c})} : \E nm \in {Pick({"prefix", "ext"})} : NewClient(c, d, nm)
 
 Useful  == CommitUseful \/ UpdateUseful \/ RecvUseful \/ AckUseful \/ SendR \/ SendBackR \/ SendViaR \/ SendBadCbR \/ SendTwoR
-Hostile == SendR \/ CommitR \/ UpdateR \/ RecvGood \/ RecvR \/ RecvDup \/ AckGood \/ AckR \/ RecvForged \/ AckForged \/ AckForgedCode \/ AckDup \/ RetoggleR \/ NewClientR \/ RecvRev0 \/ AckRev0 \/ RotateR
+Hostile == SendR \/ CommitR \/ UpdateR \/ UpdateForged \/ RecvGood \/ RecvR \/ RecvDup \/ AckGood \/ AckR \/ RecvForged \/ AckForged \/ AckForgedCode \/ AckDup \/ RetoggleR \/ NewClientR \/ RecvRev0 \/ AckRev0 \/ RotateR
 
 MInit == Init /\ hist = << >>
 
